@@ -350,6 +350,25 @@ pub fn worker(wi: usize, wn: usize, tier: &str) {
 pub fn run(tier: &str, replay: Option<&str>) -> i32 {
     if let Some(p) = replay {
         let v: Value = serde_json::from_str(&std::fs::read_to_string(p).expect("read")).expect("json");
+        if v["case"]["check"] == "C10S" {
+            let sig = v["signature"].as_str().unwrap_or("").to_string();
+            return match crate::realbin::run_slice("C10S", tier) {
+                Ok(r) => {
+                    if r["violations"].as_array().map(|a| a.iter().any(|x| x["sig"] == sig.as_str())).unwrap_or(false) {
+                        println!("replay: reproduced {sig}");
+                        println!("VIOLATION property=C10 replay={p}");
+                        1
+                    } else {
+                        println!("replay: no violation with signature {sig}");
+                        0
+                    }
+                }
+                Err(e) => {
+                    eprintln!("machinery error: {e}");
+                    2
+                }
+            };
+        }
         let c: DriverCfg = serde_json::from_value(v["case"]["cfg"].clone()).unwrap();
         let seq: Vec<Rpc> = serde_json::from_value(v["case"]["sequence"].clone()).unwrap();
         let rt = tokio::runtime::Builder::new_multi_thread().worker_threads(1).enable_all().build().unwrap();
@@ -394,8 +413,20 @@ pub fn run(tier: &str, replay: Option<&str>) -> i32 {
     ev.set("exhaustive", true);
     ev.set("projection_runs", tot["projections"]);
     ev.set("sequences_with_interference", tot["interfering"]);
-    ev.assume("the API-key interceptor lives in main(); the in-process driver attaches the TenantContext the interceptor would attach (key matrix: real-binary slice)");
+    ev.assume("the API-key interceptor lives in main(); the in-process driver attaches the TenantContext the interceptor would attach; the interceptor itself, the persistent tenant map and the restart are exercised by the server-level slice (real binary, auth on): {no key, unknown, disabled, empty, Bearer unknown} x 9 RPCs => UNAUTHENTICATED; two tenants (one with two keys) with identical local ids and vectors see only their own documents through Query / BulkQuery / Search before and after two restarts, with a tenant added in between");
     ev.assume("search latency, execution path and the flush count (process-wide aggregates) are not compared");
+    // server-level slice through the real binary (auth interceptor, tenant map, start-up recount)
+    match crate::realbin::run_slice("C10S", tier) {
+        Ok(v) => {
+            rep.report_bag(&crate::realbin::violations_with_prefix(&v, "C10|"));
+            ev.set("server_slice_launches_of_the_real_binary", v["launches"].clone());
+            ev.set("server_slice_checks", v["checks"].clone());
+        }
+        Err(e) => {
+            eprintln!("C10: machinery error in the server-level slice: {e}");
+            return 2;
+        }
+    }
     ev.violations = rep.violations as i64;
     ev.write();
     println!("C10 {tier}: sequences={} calls={} projections={} compared={} interfering={} states={} violations={}", tot["sequences"], tot["calls"], tot["projections"], tot["compared"], tot["interfering"], states.len(), rep.violations);
